@@ -40,6 +40,9 @@ struct Case {
     /// attempted; it must be refused and leave the live adapter working
     #[serde(default)]
     refuse_at: Option<u8>,
+    /// (executor driver) a timer that is due again at every poll shares the loop
+    #[serde(default)]
+    ticker: bool,
 }
 
 /// polls of any task, visible to watchdog threads
@@ -318,7 +321,14 @@ fn run_case(c: &Case) -> (Vec<Alarm>, Vec<String>, u64, u64) {
         if let Some(f) = rfut {
             sched.schedule(Counted { f: Box::pin(f), polls: polls.clone() }).expect("schedule");
         }
+        if c.ticker {
+            h.insert_source(calloop::timer::Timer::immediate(), |_, _, _: &mut u64| calloop::timer::TimeoutAction::ToDuration(Duration::ZERO)).expect("ticker");
+        }
         let mut iteration = 0u32;
+        // with the ticker no dispatch ever lasts its timeout: a stall shows as a long run of dispatches in which no
+        // task is polled although one is pending on a ready fd
+        let mut barren: u32 = 0;
+        let mut barren_since = Instant::now();
         while !(sh.writer_done.get() && sh.reader_done.get()) {
             if c.refuse_at.map(|k| k as u32 == iteration).unwrap_or(false) {
                 for (is_task, raw) in [(!c.reader_is_thread, rraw), (!c.writer_is_thread, wraw)] {
@@ -346,6 +356,23 @@ fn run_case(c: &Case) -> (Vec<Alarm>, Vec<String>, u64, u64) {
             }
             // the state must persist over two consecutive dispatches: the first one may have ended with the
             // event just handled (task woken, to be polled by the next dispatch)
+            if c.ticker {
+                if polls.get() != before {
+                    barren = 0;
+                    barren_since = Instant::now();
+                } else {
+                    barren += 1;
+                    if barren >= 3000 && barren_since.elapsed() >= Duration::from_millis(400) {
+                        let staged: std::cell::RefCell<Vec<Alarm>> = std::cell::RefCell::new(Vec::new());
+                        if check_idle(Duration::from_secs(1), false, &staged) {
+                            alarms.borrow_mut().extend(staged.into_inner());
+                        } else {
+                            inconclusive.push(format!("{} dispatches without a task being polled, fds not ready: slow peer?", barren));
+                        }
+                        break;
+                    }
+                }
+            }
             let staged: std::cell::RefCell<Vec<Alarm>> = std::cell::RefCell::new(Vec::new());
             if check_idle(t.elapsed(), polls.get() != before, &staged) {
                 idle_hits += 1;
@@ -528,6 +555,7 @@ fn gen_case(args: &Args, case: u64) -> Case {
         end: rng.below(2) as u8,
         echo: false,
         refuse_at: if rng.chance(1, 4) { Some(rng.below(4) as u8) } else { None },
+        ticker: rng.chance(1, 6),
     }
 }
 
